@@ -30,6 +30,15 @@ func collect() {
 	methodCallsWithPrefix("s/udpswarm", "Addr", "String", "net", "udp_string_net_calls")
 	methodCallsWithPrefix("s/udpswarm", "Addr", "UnmarshalText", "net", "udp_unmarshal_net_calls")
 
+	// C09: header sizes and the text of every MTU() the Stack model was written against
+	constInt("s/fragswarm", "Overhead", "frag_overhead")
+	constInt("p/mbapp", "HeaderSize", "mb_header_size")
+	methodSource("s/fragswarm", "swarm", "MTU", "src_frag_mtu")
+	methodSource("p/mbapp", "Swarm", "MTU", "src_mb_mtu")
+	methodSource("p/p2pmux", "muxedSwarm", "MTU", "src_mux_mtu")
+	methodSource("s/p2pkeswarm", "Swarm", "MTU", "src_ke_mtu")
+	methodSource("s/multiswarm", "multiSwarm", "MTU", "src_multi_mtu")
+
 	// C02 / C03 / C06: P2PKE constants and the readiness guards as truth tables
 	constInt("p/p2pke", "MaxNonce", "ke_max_nonce")
 	constInt("p/p2pke", "noncePostHandshake", "ke_nonce_post_handshake")
